@@ -117,6 +117,22 @@ def list_item_order_cases(maxitems):
             yield ("exec-list-flag-items:" + ",".join(combo), "exec", T(("command", "cmd"), ("args", L(w, "end"))), {"argv": ["cmd"] + argv + ["end"], "vars": {}})
 
 
+def exec_args_sequence_cases(maxitems):
+    """exec args as every sequence of 1..maxitems items over a plain word and three flag tuples (a tuple may occur twice):
+    each item contributes its own words exactly once, in order -- nothing of an earlier tuple is written again with a
+    later one (added after a sixth-round seeded change: a line buffer shared between the tuples of one args list)"""
+    items = {"word": ("w d", ["w d"]),
+             "tupleA": (T(("a", "1")), ["-a", "1"]),
+             "tupleB": (T(("bb", "x y"), ("n", None)), ["--bb", "x y", "-n"]),
+             "tupleC": (T(("item", L("1", "2"))), ["--item", "1", "--item", "2"])}
+    for n in range(1, maxitems + 1):
+        for combo in itertools.product(list(items), repeat=n):
+            argv = ["cmd"]
+            for k in combo:
+                argv += items[k][1]
+            yield ("exec-args-sequence:" + ",".join(combo), "exec", T(("command", "cmd"), ("args", L(*[items[k][0] for k in combo]))), {"argv": argv, "vars": {}})
+
+
 # ---------------------------------------------------------------------------------------------
 # shell evaluation
 
@@ -246,12 +262,13 @@ def run(ctx):
     maxlen = 5 if thorough else 4
     maxfields = 5 if thorough else 4
     strs = strings(maxlen)
-    cs = list(string_cases(strs)) + list(field_order_cases(maxfields)) + list(list_item_order_cases(4 if thorough else 3))
+    cs = list(string_cases(strs)) + list(field_order_cases(maxfields)) + list(list_item_order_cases(4 if thorough else 3)) + list(exec_args_sequence_cases(5 if thorough else 4))
     ctx.bounds = {"string_length": maxlen, "alphabet": len(ALPHA), "strings": len(strs), "fields": maxfields, "field_kinds": len(KIND_VALUES), "shells": ["sh (dash)", "bash"]}
     ctx.rule = ("every string of length <= %d over 9 shell-significant characters plus %d further strings, in 7 placements (env value, flag value, "
                 "list-flag item, exec command, exec argument, exec flag-tuple argument, exec env value; %d strings per converter call except "
                 "exec command); every tuple of 1..%d fields with kinds drawn from {str, int, float, bool, NULL, list, tuple} in every order for "
-                "env and flags; every list-valued flag of 1..%d items of those kinds in every order (alone and as a tuple in exec args). "
+                "env and flags; every list-valued flag of 1..%d items of those kinds in every order (alone and as a tuple in exec args); "
+                "exec args as every sequence of 1..4 (thorough 5) items over a word and three flag tuples. "
                 "Each converter output is evaluated by dash and bash. All cases distinct; non-trivial = both shells evaluated "
                 "the text." % (maxlen, len(UNICODE), PACK, maxfields, 4 if thorough else 3))
     viol = []
@@ -282,7 +299,7 @@ def run(ctx):
 
 def replay(case):
     # rebuild the expectation from the generators
-    for p, conv, w, exp in itertools.chain(string_cases(strings(5)), field_order_cases(5), list_item_order_cases(4)):
+    for p, conv, w, exp in itertools.chain(string_cases(strings(5)), field_order_cases(5), list_item_order_cases(4), exec_args_sequence_cases(5)):
         if p == case["placement"] and w == case["val"]:
             core._WORKER_SERVER = None
             part = work([(p, conv, w, exp)])
